@@ -264,8 +264,9 @@ PROPS = {
         "partial": "crash freedom is sampled (byte-level mutations of every message type and of proposals), not proved; the rollback half is proved on the model",
     },
     "C04": {
-        "module": ["GoatProofs.C04", "GoatProofs.C04I"],
+        "module": ["GoatProofs.C04", "GoatProofs.C04I", "GoatProofs.C04L"],
         "theorems": [
+            "Goat.C04L.go_sizes", "Goat.C04L.credited_tx_not_node_sized",
             "Goat.C04.C04_exact",
             "Goat.C04.C04_malformed_rejected",
             "Goat.C04.C04_alias_rejected",
